@@ -24,16 +24,31 @@ def main():
         return R.finish()
     cdir, harness, model = st
     cases = []
-    def mkops(g, n):
-        ops = []
+    def respell(x):
+        # the same octets spelled differently: the first ASCII letter or digit outside an escape is percent-encoded (== holds, the text differs)
+        if not x or x.startswith('['): return None
+        i = 0
+        while i < len(x):
+            if x[i] == '%': i += 3; continue
+            if x[i].isascii() and x[i].isalnum(): return x[:i] + '%%%02X' % ord(x[i]) + x[i + 1:]
+            i += 1
+        return None
+    def mkops(g, n, a0=None):
+        ops = []; cur = dict(a0 or {})
         for _ in range(n):
             k = g.pick(['au', 'ah', 'ap'])
+            key = {'au': 'userinfo', 'ah': 'host', 'ap': 'port'}[k]
             if k == 'au':
                 v = g.pick([None, '', 'u', 'longer-user:pw', g.userinfo()])
             elif k == 'ah':
                 v = g.pick(['', 'h', 'much.longer.host.example', '[::1]', '[v1.a:b]', g.host()])
             else:
                 v = g.pick([None, '', '8', '8080', g.port()])
+            if k != 'ap' and g.r.random() < 0.2:
+                # a new value that is == the current one but not the same text (a setter must still write it)
+                alt = respell(cur.get(key)) or (cur.get(key).swapcase() if cur.get(key) and not cur.get(key).startswith('[') and '%' not in cur.get(key) else None)
+                if alt is not None and alt != cur.get(key): v = alt
+            cur[key] = v
             ops.append((k, v))
         return ops
     n = 60000 if thorough else 3000
@@ -44,7 +59,7 @@ def main():
             pre = g.pick(['//', 's://', 'http://'])
             post = g.path('abempty', nseg=g.pick([0, 1, 2])) + g.pick(['', '?q', '#f', '?q@x:1#f:2@y', '?' + 'k' * 300])
             kind = fam + ('ref' if pre == '//' or g.r.random() < 0.5 else '')
-            cases.append((kind, pre, a, post, mkops(g, g.pick([1, 2, 2, 3, 4, 6]))))
+            cases.append((kind, pre, a, post, mkops(g, g.pick([1, 2, 2, 3, 4, 6]), a)))
     if thorough:
         uis = [None, '', 'u:p']; hosts = ['', 'h', '[::1]']; ports = [None, '', '80']
         vals = {'au': [None, '', 'x', 'longer-user'], 'ah': ['', 'hh', '[::2]'], 'ap': [None, '', '9', '65535']}
